@@ -53,7 +53,7 @@ def forced(case):
 def run(ctx):
     obs = ctx.obs
     obs.extra['meta'] = META
-    total = ctx.n(400, 12000)
+    total = ctx.n(1000, 15000)
     for case, rng in ctx.cases(total):
         f = forced(case)
         conv, kw = f if f else (CONVENTIONS[case % len(CONVENTIONS)], {})
